@@ -401,7 +401,7 @@ class Ctx:
 
 class Loop:
     def __init__(self, invariant=None, decreases=None, var=None, modifies=None, unroll=False, ghost=None,
-                 prange_writes=(), hints=None, keep_using=None, break_hints=None):
+                 prange_writes=(), hints=None, keep_using=None, break_hints=None, entry_hints=None):
         self.invariant = invariant      # callable(ctx) -> list[(label, SBool)] | SBool
         self.decreases = decreases      # callable(ctx) -> SInt   (while loops)
         self.var = var                  # loop variable name (sanity check of the binding)
@@ -410,6 +410,7 @@ class Loop:
         self.ghost = ghost              # optional dict of ghost hooks
         self.prange_writes = tuple(prange_writes)   # arrays a prange iteration i may write, at [i] only
         self.keep_using = keep_using    # {invariant label: [fact labels]} explicit hypotheses for its inv-keep
+        self.entry_hints = entry_hints  # callable(ctx)->clauses: ghost assertions just before the loop (for loops)
         self.break_hints = break_hints  # callable(ctx)->clauses: ghost assertions where the body leaves by `break`
         self.hints = hints              # callable(ctx)->clauses: ghost assertions at the end of the body,
                                         # each proved (from the earlier ones) and then available to inv-keep
